@@ -180,7 +180,8 @@ if 'b' in phase:
 dst = os.path.join(VERIF, 'seeded', tag)
 os.makedirs(dst, exist_ok=True)
 for fn in ('patch.diff', 'demo.py'):
-    shutil.copy(os.path.join(vdir, fn), dst)
+    if os.path.abspath(os.path.join(vdir, fn)) != os.path.abspath(os.path.join(dst, fn)):
+        shutil.copy(os.path.join(vdir, fn), dst)
 meta = {}
 try:
     meta = json.load(open(os.path.join(vdir, 'meta.json')))
